@@ -328,6 +328,12 @@ Definition default_post_step (s : step_view) (h : hook Z) : hook Z :=
   let h := add_to_stats (Entry m1 m1 (Some (sv_time s)) m1 m1 m1 (Some recomputed_tag) None) (b2z (sv_restart s)) h in
   add_to_stats (Entry m1 m1 (Some (sv_tend s)) m1 m1 m1 (Some recomputed_tag) None) (b2z (sv_restart s)) h.
 
+(* key of the 'niter' record of a step; a run of post_step callbacks from a fresh hook *)
+Definition niter_key (s : step_view) : entry :=
+  Entry (Some (sv_slot s)) (sv_rank s) (Some (sv_time s)) m1 (Some (sv_iter s)) (Some (sv_sweep s)) (Some "niter"%string) (sv_nr s).
+
+Definition default_run (svs : list step_view) : hook Z := fold_left (fun h s => default_post_step s h) svs hook_init.
+
 (* LogWork.post_step: no super().post_step -> the counter is whatever the last other callback left *)
 Definition logwork_post_step (s : step_view) (work : Z) (h : hook Z) : hook Z :=
   add_to_stats (Entry (Some (sv_slot s)) (sv_rank s) (Some (sv_tend s)) (Some (sv_level s)) (Some (sv_iter s)) (Some (sv_sweep s))
